@@ -53,6 +53,7 @@ const (
 	vpfSecondErr
 	vpfSecondBadBytes
 	vpfWaitErr1
+	vpfDeadEarly // rev-list dies before it has read its input: the pipe takes faultPos more roots, then the feeder blocks
 	vpfCount
 )
 
@@ -77,6 +78,11 @@ func vpInstallScanStubs(sc *vpScan) {
 		}
 		if sc.fault == vpfAddRoot && len(sc.addRoots) == sc.faultPos {
 			return errVPFault
+		}
+		if sc.fault == vpfDeadEarly && len(sc.addRoots) >= sc.faultPos {
+			// nobody drains the pipe: once its buffer is full the write never completes,
+			// whether or not the scanning goroutine has looked at the output yet
+			vp_BlockForever("AddRoot into the full pipe of a rev-list that has died")
 		}
 		sc.addRoots = append(sc.addRoots, oid)
 		return nil
@@ -105,6 +111,10 @@ func vpInstallScanStubs(sc *vpScan) {
 			}
 		}
 		i := sc.nextFirst
+		if sc.fault == vpfDeadEarly {
+			sc.dead1 = true
+			return git.BatchHeader{ObjectType: "missing"}, false, errVPFault
+		}
 		if sc.fault == vpfFirstErr && i == sc.faultPos {
 			// rev-list died: if that happens before anything was listed, the feeder may not even have started
 			sc.dead1 = true
@@ -295,7 +305,13 @@ func VPH_scan() {
 	}
 	vpInstallScanStubs(sc)
 	// two schedules: goroutines run at spawn, or only when the scanning goroutine blocks/yields
-	vp_LazyGoroutines(vp_Choice("lazy-goroutines", 2) == 1)
+	// (a feeder that blocks for good can only be expressed in the second one: in the first the
+	// goroutine is run to completion inside the `go` statement)
+	lazy := vp_Choice("lazy-goroutines", 2) == 1
+	if sc.fault == vpfDeadEarly {
+		vp_Assume(lazy)
+	}
+	vp_LazyGoroutines(lazy)
 
 	var hs HistorySize
 	var err error
@@ -311,7 +327,7 @@ func VPH_scan() {
 	struck := false
 	nTCT := nobj - 2 // trees + commits + tags requested in the second pass
 	switch sc.fault {
-	case vpfStart1, vpfStart2, vpfWaitErr1:
+	case vpfStart1, vpfStart2, vpfWaitErr1, vpfDeadEarly:
 		struck = true
 	case vpfAddRoot:
 		struck = sc.faultPos < len(wantAdd)
@@ -446,9 +462,19 @@ func (g vpGrouper) Categorize(refname string) (bool, []RefGroupSymbol) {
 	*g.seen = append(*g.seen, refname)
 	walk := len(refname)%2 == 0
 	if walk {
-		return true, []RefGroupSymbol{"", "g"}
+		return true, vpGroupsOf(refname)
 	}
 	return false, []RefGroupSymbol{"ignored"}
+}
+
+// vpGroupsOf: overlapping refgroups - neighbouring references get lists of the
+// same length and the same innermost symbol that differ in the middle.
+func vpGroupsOf(refname string) []RefGroupSymbol {
+	mid := RefGroupSymbol("tags")
+	if len(refname) > 5 && refname[5] == 'h' {
+		mid = "branches"
+	}
+	return []RefGroupSymbol{"", mid, "rel"}
 }
 func (g vpGrouper) Groups() []RefGroup { return nil }
 
@@ -460,7 +486,7 @@ func VPH_collectReferences() {
 		vp_Reach("end")
 		return
 	}
-	names := []string{"refs/heads/a", "refs/heads/bb", "refs/tags/v", "refs/x"}
+	names := []string{"refs/heads/a", "refs/tags/vv", "refs/heads/bb", "refs/x"}
 	n := vp_Choice("refs", len(names)+1)
 	fault := vp_Choice("fault", 3) // 0 none, 1 NewReferenceIter fails, 2 listing fails after faultPos refs
 	faultPos := vp_Choice("faultpos", n+1)
@@ -497,11 +523,73 @@ func VPH_collectReferences() {
 		vp_Assert(r.Walk() == (len(names[k])%2 == 0), "selection as decided by the grouper")
 		vp_Assert(len(seen) > k && seen[k] == names[k], "each reference categorised once, in order")
 		if r.Walk() {
-			vp_Assert(len(r.Groups()) == 2, "groups as decided by the grouper")
+			want := vpGroupsOf(names[k])
+			got := r.Groups()
+			vp_Assert(len(got) == len(want), "groups as decided by the grouper")
+			for j := 0; j < len(want) && j < len(got); j++ {
+				vp_Assert(got[j] == want[j], "each reference carries exactly the groups the grouper gave it")
+			}
 		} else {
 			vp_Assert(len(r.Groups()) == 1 && r.Groups()[0] == "ignored", "an unselected reference carries only Ignored")
 		}
 	}
 	vp_Assert(len(seen) == n, "no reference categorised twice")
 	vp_Reach("end")
+}
+
+// VPH_scanOddRoots (C01, C03): root selections that reach only part of the
+// object kinds - a chain of 1..2 annotated tags ending in a blob (no commit,
+// no tree), a lone blob, a lone (empty) tree - are censused like any other:
+// every listed object is counted, whichever kinds are absent.
+func VPH_scanOddRoots() {
+	sc := &vpScan{objs: map[git.OID]*vpObj{}}
+	add := func(o *vpObj) *vpObj { sc.objs[o.oid] = o; return o }
+	size := vp_U32("blobsize")
+	b0 := add(&vpObj{oid: vpMkOID('b', 0), typ: "blob", size: size})
+	var want vpNums
+	shape := vp_Choice("shape", 4)
+	switch shape {
+	case 0, 1: // 1 or 2 tags, the innermost naming the blob
+		g0 := add(&vpObj{oid: vpMkOID('g', 0), typ: "tag", data: []byte("object " + vpHex(b0.oid) + "\ntype blob\ntag key\ntagger T <t@u> 3 +0000\n\nm\n")})
+		want[vpiTags], want[vpiTagDepth] = 1, 1
+		if shape == 1 {
+			g1 := add(&vpObj{oid: vpMkOID('g', 1), typ: "tag", data: []byte("object " + vpHex(g0.oid) + "\ntype tag\ntag outer\ntagger T <t@u> 4 +0000\n\nm\n")})
+			sc.listing = append(sc.listing, g1)
+			want[vpiTags], want[vpiTagDepth] = 2, 2
+		}
+		sc.listing = append(sc.listing, g0, b0)
+		want[vpiBlobs], want[vpiBlobBytes], want[vpiMaxBlob] = 1, uint64(size), uint64(size)
+	case 2: // a ROOT naming a blob
+		sc.listing = append(sc.listing, b0)
+		want[vpiBlobs], want[vpiBlobBytes], want[vpiMaxBlob] = 1, uint64(size), uint64(size)
+	case 3: // a ROOT naming the empty tree
+		t0 := add(&vpObj{oid: vpMkOID('t', 0), typ: "tree", data: nil})
+		sc.listing = append(sc.listing, t0)
+		want[vpiTrees], want[vpiXTrees] = 1, 1
+	}
+	top := sc.listing[0].oid
+	var roots []Root
+	if vp_Choice("rootkind", 2) == 0 {
+		roots = append(roots, NewExplicitRoot("x", top))
+	} else {
+		roots = append(roots, RefRoot{ref: git.Reference{Refname: "refs/tags/k", OID: top}, walk: true, groups: []RefGroupSymbol{"", "tags"}})
+		want[vpiRefs] = 1
+	}
+	vpInstallScanStubs(sc)
+	vp_LazyGoroutines(vp_Choice("lazy-goroutines", 2) == 1)
+	var hs HistorySize
+	var err error
+	panicked := vp_Catch(func() {
+		hs, err = ScanRepositoryUsingGraph(context.Background(), &git.Repository{}, roots, NameStyleNone, meter.NoProgressMeter)
+	})
+	vp_Assert(!panicked, "the scan neither panics nor blocks forever")
+	if panicked {
+		return
+	}
+	vp_Assert(err == nil, "a fault-free scan succeeds")
+	if err != nil {
+		return
+	}
+	vpExpect(vpNumbers(&hs), want, "scan")
+	vp_Reach("ok")
 }
